@@ -87,6 +87,7 @@ int  myth_verif_join_worker(long rank);
 int  myth_verif_barrier_wait(void * barrier, int n);
 int  myth_verif_random(int min, int max, int * result);
 int  myth_verif_gettime(struct timespec * ts);
+int  myth_verif_rdtsc(unsigned long long * t);
 int  myth_verif_queue_size(int dflt);
 int  myth_verif_buggify(int site);
 void myth_verif_alloc(int kind, void * p, size_t size, int rank);
